@@ -904,6 +904,9 @@ func (o *FilterOptimizer) unionPrefixAndRange(prefix, srange *ScanType) *ScanTyp
 		} else if rend != nil && bytes.Compare(rend, pstart) < 0 {
 			// | RS | RE | PS | PE |
 			// just scan RS -> nil
+			if rstart == nil {
+				return &ScanType{FULL, nil}
+			}
 			return &ScanType{RANGE, [][]byte{rstart, nil}}
 		}
 	}
